@@ -263,6 +263,10 @@ REQUIRED_LABELS = {"depth>=2": 0.05, "relative-month/year": 0.03, "prio-range": 
                    "atom:desc": 0.05, "atom:file": 0.05, "atom:link": 0.05, "atom:prop": 0.05, "negated": 0.05}
 
 
+def sample_view(case):
+    return f"{Q.render(case['q'])}    (today = {case['today']})"
+
+
 def parts(tier):
     from ..engine import load_findings
 
